@@ -203,7 +203,10 @@ impl KnownFinding {
         p.file.contains(f.as_str())
             && p.msg.contains(m.as_str())
             && self.panic_line.map(|l| l == p.line).unwrap_or(true)
-            && (self.panic_bt_contains_any.is_empty() || self.panic_bt_contains_any.iter().any(|n| p.bt.contains(n.as_str())))
+            // the backtrace narrows a shared panic site to one root cause; in sanitizer builds frames are
+            // symbolised without module paths ("blend", "lum"), so the narrowing is only applied when
+            // qualified names are available
+            && (self.panic_bt_contains_any.is_empty() || !p.bt.contains("sw_composite::") || self.panic_bt_contains_any.iter().any(|n| p.bt.contains(n.as_str())))
     }
 }
 
